@@ -528,7 +528,23 @@ def verify_writer(prog, f, stores, kind):
                 good.append(f"{b}: obtained by get_atom() of a name created in this function")
         return len(good) == len(bases), "; ".join(good) if good else f"cannot show that {bases} are fresh"
     if kind == "rigid":
-        # stored values: <newcoords>[i][k] + <origin>, newcoords = quat.qchichange(...)
+        # decided semantically: the mover is evaluated on atoms with symbolic coordinates (C15.R4): what it stores is the output
+        # of the rotation primitive plus the origin atom, atom by atom, and nothing else moves
+        try:
+            import sympy as sp
+            from ..report import Report
+            from . import c15
+            sub = Report("C15", "quick")
+            r_sub = sub.rule("R4", "call sites", floor=0)
+            c15.rule_callsite_semantics(prog, r_sub, sp)
+            mine = [ob for ob in r_sub.obs if ob.key.endswith("|" + fn.name)]
+            if mine:
+                bad = [ob.key for ob in mine if not ob.ok]
+                return not bad, (f"symbolic evaluation: {len(mine)} obligations on the values stored (rotation output + origin; near side fixed)" if not bad
+                                 else f"symbolic evaluation refutes {bad}")
+        except AnalysisError:
+            pass
+        # fallback (shape): stored values: <newcoords>[i][k] + <origin>, newcoords = quat.qchichange(...)
         nc = [U(s.targets[0]) for s in iter_stmts(fn.body) if isinstance(s, ast.Assign) and isinstance(s.value, ast.Call)
               and U(s.value.func) == "quat.qchichange"]
         if len(nc) != 1:
